@@ -100,3 +100,67 @@ Proof.
     pose proof (wc_rs _ _ (wi_cc f WF)) as E. rewrite HA in E. rewrite E in Hregs. exact Hregs. }
   rewrite !Hchk. reflexivity.
 Qed.
+
+(* ------------------------------------------------------------------ what verdict 0 of the argument-copy scenario means *)
+Lemma first_bad_none_inv g w s0 s3 : forall ids, first_bad g ids w s0 s3 = None ->
+  forall r, In r ids -> trunc w (st_reg s3 g r) = trunc w (st_reg s0 g r).
+Proof.
+  induction ids as [|x rest IH]; intros H r Hin; [destruct Hin|]. cbn [first_bad] in H.
+  destruct (Z.eqb_spec (trunc w (st_reg s3 g x)) (trunc w (st_reg s0 g x))) as [E|E]; [|discriminate].
+  destruct Hin as [<-|Hin]; auto.
+Qed.
+
+Definition arg_at_destination (a : arch) (s : state) (i : Z) (spec : argspec) : Prop :=
+  let '(_, _, dk, dv) := spec in
+  if dk =? 0 then st_reg s 0 dv = arg_value i
+  else load_mem (st_mem s) (st_reg s 0 (sp_id a) + dv) (reg_size a) = Some (arg_value i).
+
+Lemma first_misplaced_none a s : forall args i, first_misplaced a s args i = None ->
+  forall k spec, nth_error args k = Some spec -> arg_at_destination a s (i + Z.of_nat k) spec.
+Proof.
+  induction args as [|[[[sk sv] dk] dv] rest IH]; intros i H k spec Hk; [destruct k; discriminate|].
+  cbn [first_misplaced] in H.
+  destruct (if dk =? 0 then st_reg s 0 dv =? arg_value i
+            else match load_mem (st_mem s) (st_reg s 0 (sp_id a) + dv) (reg_size a) with Some v => v =? arg_value i | None => false end) eqn:E; [|discriminate].
+  destruct k as [|k]; cbn [nth_error] in Hk.
+  - inversion Hk; subst spec. unfold arg_at_destination. rewrite Z.add_0_r.
+    destruct (dk =? 0); [apply Z.eqb_eq; exact E|].
+    destruct (load_mem _ _ _) as [v|]; [|discriminate]. apply Z.eqb_eq in E. congruence.
+  - replace (i + Z.of_nat (S k)) with ((i + 1) + Z.of_nat k) by lia. apply (IH (i + 1) H k spec Hk).
+Qed.
+
+Theorem exec_args_frame_sound a pro asg epi sp0 ra args dirty preserved srsize has_fp csize local_off lsize cleanup :
+  fst (exec_args_frame a pro asg epi sp0 ra args dirty preserved srsize has_fp csize local_off lsize cleanup) = 0 ->
+  let s0 := init_state_args a sp0 ra args in
+  exists s1 s1' s3,
+    run a pro s0 = Some s1 /\ run a asg s1 = Some s1' /\ st_reg s1' 0 (sp_id a) = st_reg s1 0 (sp_id a) /\
+    (forall k spec, nth_error args k = Some spec -> arg_at_destination a s1' (Z.of_nat k) spec) /\
+    run a epi (poison_body a s1' dirty has_fp csize local_off lsize) = Some s3 /\
+    st_ret s3 = Some ra /\ st_reg s3 0 (sp_id a) = sp0 + ret_addr_size a + cleanup /\
+    (forall g r, 0 <= g <= 3 -> In r (bits_of 32 (qget preserved g)) -> ~ (g = 0 /\ r = sp_id a) ->
+       trunc (if g =? 0 then reg_size a else qget srsize g) (st_reg s3 g r) = trunc (if g =? 0 then reg_size a else qget srsize g) (st_reg s0 g r)).
+Proof.
+  unfold exec_args_frame. cbv zeta. set (s0 := init_state_args a sp0 ra args).
+  destruct (run a pro s0) as [s1|] eqn:E1; [|intros HH; cbn in HH; discriminate HH].
+  destruct (run a asg s1) as [s1'|] eqn:E2; [|intros HH; cbn in HH; discriminate HH].
+  destruct (Z.eqb_spec (st_reg s1' 0 (sp_id a)) (st_reg s1 0 (sp_id a))) as [Esp|Esp]; [|intros HH; cbn in HH; discriminate HH]. cbn [negb].
+  destruct (first_misplaced a s1' args 0) as [i|] eqn:E3; [intros HH; cbn in HH; discriminate HH|].
+  destruct (run a epi _) as [s3|] eqn:E4; [|intros HH; cbn in HH; discriminate HH].
+  destruct (st_ret s3) as [t|] eqn:E5; [|intros HH; cbn in HH; discriminate HH].
+  destruct (Z.eqb_spec t ra) as [Et|Et]; [|intros HH; cbn in HH; discriminate HH]. cbn [negb].
+  destruct (Z.eqb_spec (st_reg s3 0 (sp_id a)) (sp0 + ret_addr_size a + cleanup)) as [Es|Es]; [|intros HH; cbn in HH; discriminate HH]. cbn [negb].
+  destruct (preserved_check a preserved srsize s0 s3) as [d|] eqn:C; [intros HH; cbn in HH; discriminate HH|].
+  intros _. exists s1, s1', s3. repeat match goal with |- _ /\ _ => split end; auto.
+  - intros k spec Hk. pose proof (first_misplaced_none a s1' args 0 E3 k spec Hk) as H. rewrite Z.add_0_l in H. exact H.
+  - rewrite E5. subst t. reflexivity.
+  - intros g r Hg Hin Hne.
+    assert (Hc : group_check a preserved srsize s0 s3 g = None).
+    { unfold preserved_check in C.
+      destruct (group_check a preserved srsize s0 s3 0) eqn:C0; [discriminate|].
+      destruct (group_check a preserved srsize s0 s3 1) eqn:C1; [discriminate|].
+      destruct (group_check a preserved srsize s0 s3 2) eqn:C2; [discriminate|].
+      destruct (group_check a preserved srsize s0 s3 3) eqn:C3; [discriminate|].
+      assert (g = 0 \/ g = 1 \/ g = 2 \/ g = 3) as [->|[->|[->| ->]]] by lia; assumption. }
+    unfold group_check in Hc. apply (first_bad_none_inv _ _ _ _ _ Hc). apply filter_In. split; auto.
+    apply negb_true_iff. destruct (Z.eqb_spec g 0); destruct (Z.eqb_spec r (sp_id a)); cbn; auto. exfalso. apply Hne; auto.
+Qed.
